@@ -7,7 +7,7 @@ import itertools
 
 class G:
     """Abstract graph state.  Everything is plain lists of small ints (or None)."""
-    __slots__ = ('ids', 'parent', 'children', 'preds', 'succs', 'roots', 'owner')
+    __slots__ = ('ids', 'parent', 'children', 'preds', 'succs', 'roots', 'owner', 'alien')
 
     def __init__(self, ids, nw):
         n = len(ids)
@@ -18,6 +18,7 @@ class G:
         self.succs = [[] for _ in range(n)]
         self.roots = [[] for _ in range(nw)]
         self.owner = [None] * n          # what Task.wbs reports (only meaningful for real snapshots)
+        self.alien = []                  # type names of non-task objects met in relation lists (real snapshots)
 
     @property
     def n(self):
@@ -32,6 +33,7 @@ class G:
         g.succs = [list(c) for c in self.succs]
         g.roots = [list(c) for c in self.roots]
         g.owner = list(self.owner)
+        g.alien = []
         return g
 
     def add_task(self, tid):
@@ -301,6 +303,19 @@ def _ref(own):
     return ('t', own) if own >= 0 else ('w', -own - 1)
 
 
+def is_foreign(x):
+    return isinstance(x, str) and x.startswith('F:')
+
+
+def has_foreign(op):
+    for x in op[1:]:
+        if is_foreign(x):
+            return True
+        if isinstance(x, (list, tuple)) and any(is_foreign(y) for y in x):
+            return True
+    return False
+
+
 def _same_wbs_rule(g, movers, ref):
     """Cross-WBS adoption of a member is neither promised nor forbidden by the statements:
     a member of WBS X handed to another WBS or to a detached tree -> UNJUDGED."""
@@ -369,6 +384,10 @@ def effect(g, op, attrs=None):
     attrs: {attribute name: [value per task]} for sort."""
     kind = op[0]
     n = g.n
+    if has_foreign(op):
+        # something that is not a Task where a task is expected (an id, a WBS, ...): nothing documents an effect;
+        # the invariants and - if the call raises - the snapshot comparison apply
+        return Effect(ILLEGAL, [g.copy()], (), 'non-task-argument', ['C01:non-task-argument'])
 
     def fin(g1s, movers=(), ref=None, unj=False, note=''):
         if ref is not None and movers and not _same_wbs_rule(g, movers, ref):
@@ -447,6 +466,8 @@ def effect(g, op, attrs=None):
         own, t, i = op[1], op[2], op[3]
         ref = _ref(own)
         lst = g.clist(ref)
+        if not isinstance(i, int) or isinstance(i, bool):
+            return Effect(UNJUDGED, [g.copy()], (), 'index-not-an-int')
         if ref[0] == 't':
             if t == own or t in (g.ancestors(own) or []):
                 g1 = g.copy()
@@ -594,12 +615,30 @@ def effect(g, op, attrs=None):
         own, key, reverse = op[1], op[2], op[3]
         ref = _ref(own)
         lst = g.clist(ref)
+        if isinstance(key, (list, tuple)) and key and attrs is not None and all(isinstance(k, str) and k in attrs for k in key):
+            # a list of attribute names: "ascending by the specified attributes".  The order is judged when comparing the
+            # values attribute by attribute and comparing their joined texts (what the code does) give the same order
+            if any(attrs[k][x] is None for k in key for x in lst):
+                return Effect(UNJUDGED, [g.copy()], (), 'sort-none-values')
+            try:
+                by_vals = sorted(lst, key=lambda x: tuple(attrs[k][x] for k in key), reverse=bool(reverse))
+            except TypeError:
+                return Effect(UNJUDGED, [g.copy()], (), 'sort-incomparable')
+            by_text = sorted(lst, key=lambda x: '-'.join(str(attrs[k][x]) for k in key), reverse=bool(reverse))
+            if by_vals != by_text:
+                return Effect(UNJUDGED, [g.copy()], (), 'sort-list-key-ambiguous')
+            g1 = g.copy()
+            g1.clist(ref)[:] = by_vals
+            return fin([g1], note='sort-by-list')
         if not isinstance(key, str) or attrs is None or key not in attrs:
             return Effect(UNJUDGED, [g.copy()], (), 'sort-key-not-modelled')
         vals = attrs[key]
         if any(vals[x] is None for x in lst):
             return Effect(UNJUDGED, [g.copy()], (), 'sort-none-values')
-        asc = sorted(lst, key=lambda x: vals[x])
+        try:
+            asc = sorted(lst, key=lambda x: vals[x])
+        except TypeError:
+            return Effect(UNJUDGED, [g.copy()], (), 'sort-incomparable')
         cands = []
         if not reverse:
             orders = [asc]
